@@ -4,6 +4,7 @@ import (
 	"fmt"
 	"go/token"
 	"go/types"
+	"sort"
 	"strings"
 
 	"golang.org/x/tools/go/ssa"
@@ -562,121 +563,136 @@ func init() {
 				c.AnchorLost("stat.GetOrCreateResourceNode / GetResourceNode / NewResourceNode / resNodeMap")
 				return
 			}
-			nameP := accessPath(f.Params[0])
-			var judge func(v ssa.Value, d int) string
-			judge = func(v ssa.Value, d int) string {
-				if d > 5 {
-					return "too deep"
+			// helpers of the package that store into resNodeMap ("create under the lock" extracted into a function)
+			creators := map[*ssa.Function]bool{}
+			for _, h := range c.P.FuncsIn(modPath + "/core/stat") {
+				if isTestOrExample(h) || h == f {
+					continue
 				}
-				switch x := resolve(v).(type) {
-				case *ssa.Phi:
-					for _, e := range x.Edges {
-						if m := judge(e, d+1); m != "" {
-							return m
-						}
-					}
-					return ""
-				case *ssa.Call:
-					cal := x.Call.StaticCallee()
-					if (cal == getN || cal == newN) && len(x.Call.Args) >= 1 && accessPath(x.Call.Args[0]) == nameP {
-						return ""
-					}
-					return "call " + accessPath(x) + " is not GetResourceNode / NewResourceNode of the requested name"
-				case *ssa.Lookup:
-					if ld, ok := x.X.(*ssa.UnOp); ok && ld.X == ssa.Value(g) && accessPath(x.Index) == nameP {
-						return ""
-					}
-					return "lookup " + accessPath(x) + " is not resNodeMap[name]"
-				case *ssa.Extract:
-					return judge(x.Tuple, d+1)
-				case *ssa.UnOp:
-					if _, isG := x.X.(*ssa.Global); isG {
-						return "the package-level node " + accessPath(x) + " is handed out for an arbitrary resource name"
-					}
-					// result variable of a function with defer: every value stored into it is a returned value
-					if al, ok := x.X.(*ssa.Alloc); ok {
-						n := 0
-						for _, r := range refsOf(al) {
-							if st, ok := r.(*ssa.Store); ok && st.Addr == ssa.Value(al) {
-								n++
-								if m := judge(st.Val, d+1); m != "" {
-									return m
-								}
+				eachInstr(h, func(ins ssa.Instruction) {
+					if mu, ok := ins.(*ssa.MapUpdate); ok {
+						if ld, ok := mu.Map.(*ssa.UnOp); ok && ld.X == ssa.Value(g) && len(h.Params) > 0 {
+							if b, ok := h.Params[0].Type().Underlying().(*types.Basic); ok && b.Kind() == types.String {
+								creators[h] = true
 							}
 						}
-						if n > 0 {
+					}
+				})
+			}
+			delegated := false
+			var checkFn func(f *ssa.Function)
+			checkFn = func(f *ssa.Function) {
+				nameP := accessPath(f.Params[0])
+				var judge func(v ssa.Value, d int) string
+				judge = func(v ssa.Value, d int) string {
+					if d > 5 {
+						return "too deep"
+					}
+					switch x := resolve(v).(type) {
+					case *ssa.Phi:
+						for _, e := range x.Edges {
+							if m := judge(e, d+1); m != "" {
+								return m
+							}
+						}
+						return ""
+					case *ssa.Call:
+						cal := x.Call.StaticCallee()
+						if (cal == getN || cal == newN) && len(x.Call.Args) >= 1 && accessPath(x.Call.Args[0]) == nameP {
 							return ""
 						}
+						if creators[cal] && len(x.Call.Args) >= 1 && accessPath(x.Call.Args[0]) == nameP {
+							delegated = true // judged as a function of its own below
+							return ""
+						}
+						return "call " + accessPath(x) + " is not GetResourceNode / NewResourceNode of the requested name"
+					case *ssa.Lookup:
+						if ld, ok := x.X.(*ssa.UnOp); ok && ld.X == ssa.Value(g) && accessPath(x.Index) == nameP {
+							return ""
+						}
+						return "lookup " + accessPath(x) + " is not resNodeMap[name]"
+					case *ssa.Extract:
+						return judge(x.Tuple, d+1)
+					case *ssa.UnOp:
+						if _, isG := x.X.(*ssa.Global); isG {
+							return "the package-level node " + accessPath(x) + " is handed out for an arbitrary resource name"
+						}
+						// result variable of a function with defer: every value stored into it is a returned value
+						if al, ok := x.X.(*ssa.Alloc); ok {
+							n := 0
+							for _, r := range refsOf(al) {
+								if st, ok := r.(*ssa.Store); ok && st.Addr == ssa.Value(al) {
+									n++
+									if m := judge(st.Val, d+1); m != "" {
+										return m
+									}
+								}
+							}
+							if n > 0 {
+								return ""
+							}
+						}
+					case *ssa.Const:
+						if x.Value == nil {
+							return "nil is returned: the entry gets no statistic node (a typed-nil StatNode defeats the nil guards of the statistic slot; pass and completion are recorded nowhere)"
+						}
 					}
-				case *ssa.Const:
-					if x.Value == nil {
-						return "nil is returned: the entry gets no statistic node (a typed-nil StatNode defeats the nil guards of the statistic slot; pass and completion are recorded nowhere)"
+					return "origin " + accessPath(v) + " is not a per-name node"
+				}
+				for i, r := range returnsOf(f) {
+					msg := judge(r.Results[0], 0)
+					c.Check(msg == "", fmt.Sprintf("%s / return#%d", fnKey(f), i+1), r.Pos(), "returns the node of the requested resource name%s", map[bool]string{true: "", false: ": " + msg + " - several resources would share one window and one in-flight gauge"}[msg == ""])
+				}
+				// a created node is registered under its own name
+				okStore := false
+				eachInstr(f, func(ins ssa.Instruction) {
+					if mu, ok := ins.(*ssa.MapUpdate); ok {
+						if ld, ok := mu.Map.(*ssa.UnOp); ok && ld.X == ssa.Value(g) {
+							okStore = accessPath(mu.Key) == nameP && judge(mu.Value, 0) == ""
+							c.Check(okStore, fnKey(f)+" / registers-under-own-name", mu.Pos(), "resNodeMap[%s] = %s", accessPath(mu.Key), accessPath(mu.Value))
+						}
 					}
+				})
+				if !okStore && !delegated {
+					c.Violate(fnKey(f)+" / registers", f.Pos(), "a newly created node is not registered under the requested name")
 				}
-				return "origin " + accessPath(v) + " is not a per-name node"
-			}
-			for i, r := range returnsOf(f) {
-				msg := judge(r.Results[0], 0)
-				c.Check(msg == "", fmt.Sprintf("%s / return#%d", fnKey(f), i+1), r.Pos(), "returns the node of the requested resource name%s", map[bool]string{true: "", false: ": " + msg + " - several resources would share one window and one in-flight gauge"}[msg == ""])
-			}
-			// a created node is registered under its own name
-			okStore := false
-			eachInstr(f, func(ins ssa.Instruction) {
-				if mu, ok := ins.(*ssa.MapUpdate); ok {
-					if ld, ok := mu.Map.(*ssa.UnOp); ok && ld.X == ssa.Value(g) {
-						okStore = accessPath(mu.Key) == nameP && judge(mu.Value, 0) == ""
-						c.Check(okStore, fnKey(f)+" / registers-under-own-name", mu.Pos(), "resNodeMap[%s] = %s", accessPath(mu.Key), accessPath(mu.Value))
+				// check-then-act: the node is stored only when, under the very write lock that covers the store, the
+				// name was looked up and found absent. Otherwise two first entries of one resource each register a node and
+				// the entry counted on the overwritten node is lost to the in-flight gauge for its whole lifetime.
+				isOp := func(ins ssa.Instruction, want string) bool {
+					ci, ok := ins.(ssa.CallInstruction)
+					if !ok {
+						return false
 					}
-				}
-			})
-			if !okStore {
-				c.Violate(fnKey(f)+" / registers", f.Pos(), "a newly created node is not registered under the requested name")
-			}
-			// check-then-act: the node is stored only when, under the very write lock that covers the store, the
-			// name was looked up and found absent. Otherwise two first entries of one resource each register a node and
-			// the entry counted on the overwritten node is lost to the in-flight gauge for its whole lifetime.
-			isOp := func(ins ssa.Instruction, want string) bool {
-				ci, ok := ins.(ssa.CallInstruction)
-				if !ok {
-					return false
-				}
-				if _, isDefer := ins.(*ssa.Defer); isDefer {
-					return false
-				}
-				k, op, ok := mutexOp(ci)
-				return ok && op == want && strings.HasSuffix(k, "rnsMux")
-			}
-			lock := func(ins ssa.Instruction) bool { return isOp(ins, "Lock") }
-			unlock := func(ins ssa.Instruction) bool { return isOp(ins, "Unlock") || isOp(ins, "RUnlock") }
-			eachInstr(f, func(ins ssa.Instruction) {
-				mu, ok := ins.(*ssa.MapUpdate)
-				if !ok {
-					return
-				}
-				if ld, ok := mu.Map.(*ssa.UnOp); !ok || ld.X != ssa.Value(g) {
-					return
-				}
-				held := mustBeforeInstr(mu, lock, unlock)
-				rechecked := false
-				for _, ft := range condFacts(mu.Block()) {
-					var sides []ssa.Value
-					if bo, ok := ft.Cond.(*ssa.BinOp); ok && ((bo.Op == token.EQL && ft.Truth) || (bo.Op == token.NEQ && !ft.Truth)) && (isNilConst(bo.X) || isNilConst(bo.Y)) {
-						sides = []ssa.Value{bo.X, bo.Y}
-					} else if ex, ok := ft.Cond.(*ssa.Extract); ok && ex.Index == 1 && !ft.Truth {
-						sides = []ssa.Value{ex.Tuple} // `_, ok := m[k]` found absent
+					if _, isDefer := ins.(*ssa.Defer); isDefer {
+						return false
 					}
-					for _, side := range sides {
-						lk, ok := resolve(side).(*ssa.Lookup)
+					k, op, ok := mutexOp(ci)
+					return ok && op == want && strings.HasSuffix(k, "rnsMux")
+				}
+				lock := func(ins ssa.Instruction) bool { return isOp(ins, "Lock") }
+				unlock := func(ins ssa.Instruction) bool { return isOp(ins, "Unlock") || isOp(ins, "RUnlock") }
+				eachInstr(f, func(ins ssa.Instruction) {
+					mu, ok := ins.(*ssa.MapUpdate)
+					if !ok {
+						return
+					}
+					if ld, ok := mu.Map.(*ssa.UnOp); !ok || ld.X != ssa.Value(g) {
+						return
+					}
+					held := mustBeforeInstr(mu, lock, unlock)
+					rechecked := false
+					eachInstr(f, func(x ssa.Instruction) {
+						lk, ok := x.(*ssa.Lookup)
 						if !ok {
-							continue
+							return
 						}
 						if ld, ok := lk.X.(*ssa.UnOp); !ok || ld.X != ssa.Value(g) || accessPath(lk.Index) != nameP {
-							continue
+							return
 						}
-						if !mustBeforeInstr(lk, lock, unlock) {
-							continue
+						if !mustBeforeInstr(lk, lock, unlock) || !reachedOnlyIfAbsent(lk, mu) {
+							return
 						}
-						// no release of the lock between the lookup and the store
 						released := false
 						eachInstr(f, func(u ssa.Instruction) {
 							if unlock(u) && instrReaches(lk, u) && instrReaches(u, mu) {
@@ -686,10 +702,22 @@ func init() {
 						if !released {
 							rechecked = true
 						}
-					}
+					})
+					c.Check(held && rechecked, fnKey(f)+" / absent-rechecked-under-write-lock", mu.Pos(), "the node is registered with rnsMux write-held (%v) and only after resNodeMap[name] was found absent under that same hold (%v): concurrent first entries of one resource must end up on one node", held, rechecked)
+				})
+			}
+			checkFn(f)
+			if delegated {
+				var hs []*ssa.Function
+				for h := range creators {
+					hs = append(hs, h)
 				}
-				c.Check(held && rechecked, fnKey(f)+" / absent-rechecked-under-write-lock", mu.Pos(), "the node is registered with rnsMux write-held (%v) and only after resNodeMap[name] was found absent under that same hold (%v): concurrent first entries of one resource must end up on one node", held, rechecked)
-			})
+				sort.Slice(hs, func(i, j int) bool { return fnKey(hs[i]) < fnKey(hs[j]) })
+				for _, h := range hs {
+					delegated = false
+					checkFn(h)
+				}
+			}
 		},
 	})
 }
